@@ -31,6 +31,10 @@ CLASSIFIERS = {
     # stored original read
     "info-5p-offset": lambda v: v["kind"] in ("info-concat", "info-middle", "info-quals")
     and _f(v, "removed_5p_before_adapters", 0) > 0,
+    # C12: the FASTQ parser does not validate quality characters: a quality line corrupted to hold a control character,
+    # blank or DEL (same length, still ASCII) is accepted. Only for files whose sole defect is that character.
+    "fastq-quality-char-not-validated": lambda v: v["kind"] == "malformed-accepted"
+    and _f(v, "only_defect") == "quality-char-out-of-range",
 }
 
 
